@@ -178,7 +178,9 @@ def history(rnd, prog, profile, length):
         elif k == "eval_fn":
             if funcs and rnd.random() > bad:
                 f, n = rnd.choice(funcs)
-                # (a truth value handed over by the host stays a truth value: printed "true", returned as a bool - seeded change c16-4)
+                # (a truth value handed over by the host stays a truth value: printed "true", returned as a bool - seeded change c16-4;
+                # the host's test externals take a truth value as 1 / 0 (coerce_to_int), and so does Lin in InkSem - the first
+                # thorough run with truth values found the model answering 0 for true: a false alarm, DESIGN 11.5)
                 ops.append({"op": "eval_fn", "name": f, "args": [{"t": "bool", "v": rnd.random() < 0.5} if rnd.random() < 0.3 else
                                                                  {"t": "int", "v": rnd.randint(0, 4)} for _ in range(n)]})
             else:
